@@ -376,6 +376,24 @@ func (s *Scenario) addRuntime(rng *rand.Rand, profile string) {
 			acct.General.Allowances[s.RuntimeAddr] = q(uint64(100 + rng.IntN(5000)))
 		}
 	}
+	// Entities drawn with a stake of a few base units cannot cover compute-node and runtime stake
+	// claims: with a runtime they get an ordinary self-delegation on top.
+	for _, e := range s.Entities {
+		acct := st.Ledger[e.Addr]
+		if !e.InGenesis || acct == nil || acct.Escrow.Active.Balance.Cmp(quantity.NewFromUint64(2000)) >= 0 {
+			continue
+		}
+		_ = acct.Escrow.Active.Balance.Add(quantity.NewFromUint64(5000))
+		_ = acct.Escrow.Active.TotalShares.Add(quantity.NewFromUint64(5000))
+		if d := st.Delegations[e.Addr][e.Addr]; d != nil {
+			_ = d.Shares.Add(quantity.NewFromUint64(5000))
+		} else {
+			if st.Delegations[e.Addr] == nil {
+				st.Delegations[e.Addr] = map[staking.Address]*staking.Delegation{}
+			}
+			st.Delegations[e.Addr][e.Addr] = &staking.Delegation{Shares: q(5000)}
+		}
+	}
 	// Total supply: everything in the ledger plus the common pool.
 	total := quantity.NewQuantity()
 	for _, acct := range st.Ledger {
